@@ -83,11 +83,40 @@ def handleCbor (op : String) (args : List String) : Option String :=
     match err with
     | some e => some s!"err {errName e}"
     | none => some s!"ok {toHex bs}"
+  | "cbor.encdet", cnt :: toks => do
+    let n ← cnt.toNat?
+    let (bs, err, rest) ← runCalls n toks [] none
+    if !rest.isEmpty then none else
+    match err with
+    | some e => some s!"err {errName e}"
+    | none =>
+      match Det.deterministic bs with
+      | .ok _ => some s!"accept {toHex bs}"
+      | _ => some s!"reject {toHex bs}"
   | "cbor.dec.uint", [h] => do let bs ← ofHex h; pure (showDec (decodeUint bs) bs.length)
   | "cbor.dec.arr", [h] => do let bs ← ofHex h; pure (showDec (decodeArrayHeader bs) bs.length)
   | "cbor.dec.map", [h] => do let bs ← ofHex h; pure (showDec (decodeMapHeader bs) bs.length)
   | "cbor.dec.bytes", [h] => do let bs ← ofHex h; pure (showDecB (decodeByteString bs) bs.length)
   | "cbor.dec.text", [h] => do let bs ← ofHex h; pure (showDecB (decodeTextString bs) bs.length)
+  | "cbor.dec.seq", [_, script, h] => do
+    let bs ← ofHex h
+    let step (c : Char) (b : Bytes) : Option (Option (String × Bytes)) :=
+      match c with
+      | 'u' => some ((decodeUint b).map fun (n, r) => (toString n, r))
+      | 'a' => some ((decodeArrayHeader b).map fun (n, r) => (toString n, r))
+      | 'm' => some ((decodeMapHeader b).map fun (n, r) => (toString n, r))
+      | 'b' => some ((decodeByteString b).map fun (v, r) => (toHex v, r))
+      | 't' => some ((decodeTextString b).map fun (v, r) => (toHex v, r))
+      | _ => none
+    let rec go (cs : List Char) (i : Nat) (b : Bytes) (acc : List String) : Option String :=
+      match cs with
+      | [] => some s!"ok {bs.length - b.length} {",".intercalate acc}"
+      | c :: rest =>
+        match step c b with
+        | none => none
+        | some none => some s!"err {i} {",".intercalate acc}"
+        | some (some (v, r)) => go rest (i + 1) r (acc ++ [v])
+    go script.toList 0 bs []
   | "cbor.det", [h] => do
     let bs ← ofHex h
     match Det.deterministic bs with
